@@ -357,6 +357,84 @@ fn read_u32(stream: &mut Bytes) -> Result<u32, Error> {
 #[derive(Debug, Clone)]
 pub struct V5;
 
+/// Parses one complete frame (fixed header already validated against the stream)
+fn read_frame(fixed_header: FixedHeader, packet: BytesMut) -> Result<Packet, Error> {
+    let packet_type = fixed_header.packet_type()?;
+
+    if fixed_header.remaining_len == 0 {
+        // no payload packets
+        return match packet_type {
+            PacketType::PingReq => Ok(Packet::PingReq(PingReq)),
+            PacketType::PingResp => Ok(Packet::PingResp(PingResp)),
+            PacketType::Disconnect => Ok(Packet::Disconnect(
+                Disconnect {
+                    reason_code: DisconnectReasonCode::NormalDisconnection,
+                },
+                None,
+            )),
+            _ => Err(Error::PayloadRequired),
+        };
+    }
+
+
+    let packet = packet.freeze();
+    let packet = match packet_type {
+        PacketType::Connect => {
+            let (connect, properties, will, willproperties, login) =
+                connect::read(fixed_header, packet)?;
+            Packet::Connect(connect, properties, will, willproperties, login)
+        }
+        PacketType::Publish => {
+            let (publish, properties) = publish::read(fixed_header, packet)?;
+            Packet::Publish(publish, properties)
+        }
+        PacketType::PubAck => {
+            let (puback, properties) = puback::read(fixed_header, packet)?;
+            Packet::PubAck(puback, properties)
+        }
+        PacketType::Subscribe => {
+            let (subscribe, properties) = subscribe::read(fixed_header, packet)?;
+            Packet::Subscribe(subscribe, properties)
+        }
+        PacketType::SubAck => {
+            let (suback, properties) = suback::read(fixed_header, packet)?;
+            Packet::SubAck(suback, properties)
+        }
+        PacketType::Unsubscribe => {
+            let (unsubscribe, properties) = unsubscribe::read(fixed_header, packet)?;
+            Packet::Unsubscribe(unsubscribe, properties)
+        }
+        PacketType::PingReq => Packet::PingReq(PingReq),
+        PacketType::PingResp => Packet::PingResp(PingResp),
+        PacketType::Disconnect => {
+            let (disconnect, properties) = disconnect::read(fixed_header, packet)?;
+            Packet::Disconnect(disconnect, properties)
+        }
+        PacketType::PubRec => {
+            let (pubrec, properties) = pubrec::read(fixed_header, packet)?;
+            Packet::PubRec(pubrec, properties)
+        }
+        PacketType::PubRel => {
+            let (pubrel, properties) = pubrel::read(fixed_header, packet)?;
+            Packet::PubRel(pubrel, properties)
+        }
+        PacketType::PubComp => {
+            let (pubcomp, properties) = pubcomp::read(fixed_header, packet)?;
+            Packet::PubComp(pubcomp, properties)
+        }
+        PacketType::ConnAck => {
+            let (connack, properties) = connack::read(fixed_header, packet)?;
+            Packet::ConnAck(connack, properties)
+        }
+        PacketType::UnsubAck => {
+            let (unsuback, properties) = unsuback::read(fixed_header, packet)?;
+            Packet::UnsubAck(unsuback, properties)
+        }
+    };
+
+    Ok(packet)
+}
+
 impl Protocol for V5 {
     /// Reads a stream of bytes and extracts next MQTT packet out of it
     fn read_mut(&mut self, stream: &mut BytesMut, max_size: usize) -> Result<Packet, Error> {
@@ -364,72 +442,13 @@ impl Protocol for V5 {
 
         // Test with a stream with exactly the size to check border panics
         let packet = stream.split_to(fixed_header.frame_length());
-        let packet_type = fixed_header.packet_type()?;
 
-        if fixed_header.remaining_len == 0 {
-            // no payload packets
-            return match packet_type {
-                PacketType::PingReq => Ok(Packet::PingReq(PingReq)),
-                PacketType::PingResp => Ok(Packet::PingResp(PingResp)),
-                PacketType::Disconnect => Ok(Packet::Disconnect(
-                    Disconnect {
-                        reason_code: DisconnectReasonCode::NormalDisconnection,
-                    },
-                    None,
-                )),
-                _ => Err(Error::PayloadRequired),
-            };
-        }
-
-        let packet = packet.freeze();
-        let packet = match packet_type {
-            PacketType::Connect => {
-                let (connect, properties, will, willproperties, login) =
-                    connect::read(fixed_header, packet)?;
-                Packet::Connect(connect, properties, will, willproperties, login)
-            }
-            PacketType::Publish => {
-                let (publish, properties) = publish::read(fixed_header, packet)?;
-                Packet::Publish(publish, properties)
-            }
-            PacketType::PubAck => {
-                let (puback, properties) = puback::read(fixed_header, packet)?;
-                Packet::PubAck(puback, properties)
-            }
-            PacketType::Subscribe => {
-                let (subscribe, properties) = subscribe::read(fixed_header, packet)?;
-                Packet::Subscribe(subscribe, properties)
-            }
-            PacketType::SubAck => {
-                let (suback, properties) = suback::read(fixed_header, packet)?;
-                Packet::SubAck(suback, properties)
-            }
-            PacketType::Unsubscribe => {
-                let (unsubscribe, properties) = unsubscribe::read(fixed_header, packet)?;
-                Packet::Unsubscribe(unsubscribe, properties)
-            }
-            PacketType::PingReq => Packet::PingReq(PingReq),
-            PacketType::PingResp => Packet::PingResp(PingResp),
-            PacketType::Disconnect => {
-                let (disconnect, properties) = disconnect::read(fixed_header, packet)?;
-                Packet::Disconnect(disconnect, properties)
-            }
-            PacketType::PubRec => {
-                let (pubrec, properties) = pubrec::read(fixed_header, packet)?;
-                Packet::PubRec(pubrec, properties)
-            }
-            PacketType::PubRel => {
-                let (pubrel, properties) = pubrel::read(fixed_header, packet)?;
-                Packet::PubRel(pubrel, properties)
-            }
-            PacketType::PubComp => {
-                let (pubcomp, properties) = pubcomp::read(fixed_header, packet)?;
-                Packet::PubComp(pubcomp, properties)
-            }
-            _ => unreachable!(),
-        };
-
-        Ok(packet)
+        // The frame is complete from here on: running out of bytes inside it means that the
+        // packet is malformed, not that more bytes have to be awaited
+        read_frame(fixed_header, packet).map_err(|e| match e {
+            Error::InsufficientBytes(_) => Error::MalformedPacket,
+            e => e,
+        })
     }
 
     fn write(&self, packet: Packet, buffer: &mut BytesMut) -> Result<usize, Error> {
